@@ -50,11 +50,10 @@ def r1_who_may_call(ctx) -> None:
             loc = f"{f.module.relpath}:{c.lineno}"
             if recv.endswith("transformation"):
                 n += 1
-                gs = atomic_guards(guards_at(prog, f, c))
-                if ("self.match_rule_conditions(rule)", True) in gs and f.name == "apply" and f.cls is not None and f.cls.name in ("ProcessingItem", "QueryPostprocessingItem"):
-                    r.ok("C13.R1", q, f"{short(c, 60)} under match_rule_conditions(rule)", loc)
+                if f.name == "apply" and f.cls is not None and f.cls.name in ("ProcessingItem", "QueryPostprocessingItem"):
+                    r.ok("C13.R1", q, f"{short(c, 60)} in the processing item's own apply (gate decided by interpretation below)", loc)
                 else:
-                    r.violation("C13.R1", q, short(c, 100), f"transformation applied without the rule gate having matched (facts: {gs})", loc)
+                    r.violation("C13.R1", q, short(c, 100), "transformation applied outside the apply() of its processing item, which holds the rule gate", loc)
             elif recv == "super()":
                 continue
             elif recv in ("item", "finalizer", "self._nested_pipeline", "self.last_processing_pipeline", "pipeline"):
@@ -64,19 +63,38 @@ def r1_who_may_call(ctx) -> None:
                 if any(prog.is_subclass(t, "sigma.processing.transformations.base.Transformation") for t in types if t in prog.classes):
                     n += 1
                     r.violation("C13.R1", q, short(c, 100), "a transformation object is applied directly, bypassing its processing item's conditions", loc)
-    # the return values: applied flag
-    for cn in ("ProcessingItem", "QueryPostprocessingItem"):
+    # the gate and the applied flag: both apply() methods interpreted (sa.tabulate, Proxy) with a stand-in gate and transformation
+    from ..tabulate import Proxy as _Proxy, call_method as _call_method, Raised as _Raised
+    for cn, extra in (("ProcessingItem", ()), ("QueryPostprocessingItem", ("QUERY",))):
         f = prog.func(f"{PIPE}.{cn}.apply")
-        rets = [x for x in walk_no_nested(f.node) if isinstance(x, ast.Return)]
-        for x in rets:
-            gs = atomic_guards(guards_at(prog, f, x))
-            pos = ("self.match_rule_conditions(rule)", True) in gs
-            v = unparse(x.value)
-            okv = (v in ("True", "(result, True)") if pos else v in ("False", "(query, False)"))
-            if okv:
-                r.ok("C13.R1", f.qual, f"returns {v} {'when' if pos else 'unless'} the gate matched", f"{f.module.relpath}:{x.lineno}")
-            else:
-                r.violation("C13.R1", f.qual, stmt_head(x), "the 'applied' flag does not reflect the gate outcome (applied ids/tracking would lie)", f"{f.module.relpath}:{x.lineno}")
+        problems = []
+        for ans in (True, False):
+            calls = []
+            class _T:
+                def apply(self, *a, **k):
+                    calls.append(a)
+                    return "TRANSFORMED"
+            gate_calls = []
+            rule_obj = object()
+            me = _Proxy(prog, f"{PIPE}.{cn}", {}, {"transformation": _T(), "match_rule_conditions": lambda rule_, _a=ans: (gate_calls.append(rule_), _a)[1],
+                                                   "identifier": "x", "rule_conditions": [], "rule_condition_expression": None}, interp_kwargs={"max_steps": 4000})
+            try:
+                ret = _call_method(prog, f"{PIPE}.{cn}", "apply", me, {}, rule_obj, *extra, interp_kwargs={"max_steps": 4000})
+            except _Raised as ex:
+                problems.append(f"raises {ex} (gate answers {ans})")
+                continue
+            if gate_calls != [rule_obj]:
+                problems.append(f"match_rule_conditions is asked {len(gate_calls)} times about the rule (gate answers {ans})")
+            want_calls = [(rule_obj,) + extra] if ans else []
+            if calls != want_calls:
+                problems.append(f"the transformation is applied {len(calls)} time(s) with {calls} although the rule gate answers {ans}")
+            want = (("TRANSFORMED", True) if ans else ("QUERY", False)) if extra else ans
+            if ret != want or (not extra and ret is not want):
+                problems.append(f"returns {ret!r} instead of {want!r} when the rule gate answers {ans}")
+        if problems:
+            r.violation("C13.R1", f.qual, "apply(): transformation applied iff match_rule_conditions(rule); returns the applied flag", f"the transformation does not follow the gate outcome or the 'applied' flag does not reflect it (applied ids/tracking would lie): {problems[0]}", f.loc)
+        else:
+            r.ok("C13.R1", f.qual, "interpreted with a stand-in gate: the transformation runs once iff match_rule_conditions(rule) holds, and the applied flag (and the query passed through) says so", f.loc)
     pa = prog.func(PIPE + ".ProcessingPipeline.apply")
     # ProcessingPipeline.apply interpreted (sa.tabulate, Proxy) on stand-in items that answer whether they were applied
     from collections import defaultdict as _dd
@@ -116,7 +134,7 @@ def r1_who_may_call(ctx) -> None:
         r.ok("C13.R1", pa.qual, "applied/applied_ids recorded per item, in order, from the item's own answer (interpreted on five stand-in items)", pa.loc)
     else:
         r.violation("C13.R1", pa.qual, f"applied = item.apply(rule); self.applied.append(applied); if applied and (itid := item.identifier): self.applied_ids.add(itid) — {problems[0]}", "per-item application bookkeeping altered", pa.loc)
-    r.floor("C13.R1", 7)
+    r.floor("C13.R1", 5)
 
 
 # ------------------------------------------------------------------------------------------ R2
